@@ -1,4 +1,5 @@
 import Gedcom.Model.Warnings
+import Gedcom.Model.WarningsTies
 import Driver.Util
 namespace Driver
 open Gedcom Gedcom.Warn
@@ -11,7 +12,9 @@ open Gedcom Gedcom.Warn
   date := h<hex of the DATE value>   (parsed here with C04's `parseDateRange`; `h-` = empty value)
           | <d>.<m>.<y> | b<label>     (pre-classified, kept for replays of round-1 evidence)
   every date is labelled with its position in the request (0-based)
-  answer: the warnings in the order of Document.Warnings(), `;`-separated, `-` when none
+  answer: the warnings in the order of Document.Warnings(), `;`-separated, `-` when none; then, when
+  some decision rests on an exact Years() tie that float64 may break either way, ` ~ ` and the
+  flagged decisions (`CBBP parent child`, `OLD indi`, `MOOR fam spouse`), `;`-separated
 -/
 
 def parseKind : String → Option EvKind
@@ -129,8 +132,13 @@ def handleWarnings (cmd : String) (rest : List String) : Option String :=
     | d :: m :: y :: toks =>
       match d.toNat?, m.toNat?, y.toNat?, takeCount tokRec toks with
       | some d, some m, some y, some (doc, []) =>
-        let ws := warnings (relabelRecs 0 doc) ⟨d, m, y⟩
-        some (if ws.isEmpty then "-" else ";".intercalate (ws.map showWarning))
+        let doc := relabelRecs 0 doc
+        let ws := warnings doc ⟨d, m, y⟩
+        let line := if ws.isEmpty then "-" else ";".intercalate (ws.map showWarning)
+        -- decisions that rest on an exact tie float64 cannot be trusted with (Model/WarningsTies.lean):
+        -- appended after ` ~ `; the harness accepts their presence or absence
+        let flags := (tieFlags doc ⟨d, m, y⟩).eraseDups
+        some (if flags.isEmpty then line else line ++ " ~ " ++ ";".intercalate flags)
       | _, _, _, _ => some "bad-op"
     | _ => some "bad-op"
   | _ => none
